@@ -13,9 +13,12 @@ import vlib
 from checks import c12, c13
 
 PID = "C04"
+# won endings from which the engine plays both sides in one process
+GAME_STARTS = ["8/8/8/4k3/8/8/8/KRR5 w - - 0 1", "8/8/8/4k3/8/8/8/KQ6 w - - 0 1", "8/8/4k3/8/8/8/8/KR6 w - - 0 1", "8/8/8/4k3/8/8/8/KQR5 w - - 0 1",
+               "4k3/8/8/8/8/8/8/KBB5 w - - 0 1", "8/8/8/4k3/8/8/PPP5/KR6 w - - 0 1", "6k1/5ppp/8/8/8/8/5PPP/3RR1K1 w - - 0 1", "8/8/8/4K3/8/8/8/krr5 b - - 0 1"]
 SPEC, CFG, DIAG = "Tr_Mate.tla", "Tr_Mate.cfg", "Tr_Mate_diag.cfg"
-SIZES = {"quick": dict(harvest=96, maxn=2, tb_classes=5, tb_per=10, depths=[1, 2, 3, 4, 5, 6], certmax=3, tactical=1600),
-         "thorough": dict(harvest=1500, maxn=3, tb_classes=36, tb_per=60, depths=list(range(1, 13)), certmax=4, tactical=40000)}
+SIZES = {"quick": dict(harvest=96, maxn=2, tb_classes=5, tb_per=10, depths=[1, 2, 3, 4, 5, 6], certmax=3, tactical=1600, games=12, game_plies=24),
+         "thorough": dict(harvest=1500, maxn=3, tb_classes=36, tb_per=60, depths=list(range(1, 13)), certmax=4, tactical=40000, games=240, game_plies=40)}
 MATE1_FAMILIES = [
     "6k1/5ppp/8/8/8/8/8/R3K3 w Q - 0 1", "k7/2P5/1K6/8/8/8/8/8 w - - 0 1", "7k/5P1p/7K/8/8/8/8/8 w - - 0 1",
     "r3k2r/8/8/8/8/8/8/4K2R b kq - 0 1", "5rk1/5ppp/8/8/8/8/8/4RK2 w - - 0 1", "4k3/8/8/8/8/8/3q4/R3K2r w Q - 0 1",
@@ -46,7 +49,7 @@ def engine_run(bdir, fen, depth, net, opts):
 
 def run(tier, seed):
     rep = vlib.Report(PID, tier, seed, "model_checking")
-    bdir, _ = vlib.build("plain", ["h_mate", "h_tb", "h_fens"] + ["texel-" + n for n in sessions.NETS])
+    bdir, _ = vlib.build("plain", ["h_apply", "h_mate", "h_tb", "h_fens"] + ["texel-" + n for n in sessions.NETS])
     wd = vlib.rundir(PID)
     sz = SIZES[tier]
     rnd = random.Random(seed * 17 + 4)
@@ -117,6 +120,51 @@ def run(tier, seed):
         for d in sorted(set(use)):
             jobs.append((i, d, rnd.choice(sessions.NETS), opts))
     outs = vlib.pmap(lambda j: engine_run(bdir, roots[j[0]]["fen"], j[1], j[2], j[3]), jobs, workers=12)
+    # ---- mating games in ONE engine process (hash table kept from move to move, as in a real game): the engine plays both sides from
+    # won endings; every position of the game becomes a root of its own with the lines the engine printed for it.  Stored mate scores
+    # that drift when entries are revisited show up as announced mates that are not real.
+    def mating_game(k):
+        g = random.Random(seed * 977 + k)
+        start = g.choice(GAME_STARTS)
+        net = g.choice(sessions.NETS)
+        depth = g.choice([8, 9, 10, 11])
+        opts = {"Hash": g.choice([1, 4, 16])}
+        eng = uci.Engine(os.path.join(bdir, "texel-" + net))
+        res = []
+        try:
+            for o, v in opts.items():
+                eng.send(f"setoption name {o} value {v}")
+            eng.isready(60)
+            moves = []
+            fen = start
+            for ply in range(sz["game_plies"]):
+                eng.send(f"position fen {start}" + (" moves " + " ".join(moves) if moves else ""))
+                eng.send(f"go depth {depth}")
+                lines, ok = eng.read_until(lambda l: l.startswith("bestmove"), 120)
+                if not ok:
+                    res.append((fen, depth, net, opts, None))
+                    break
+                res.append((fen, depth, net, opts, lines))
+                best = lines[-1].split()[1]
+                if best in ("0000", "(none)"):
+                    break
+                moves.append(best)
+                p = subprocess.run([os.path.join(bdir, "h_apply"), start] + moves, stdout=subprocess.PIPE, text=True, timeout=30)
+                out = p.stdout.strip().split("\n")
+                if p.returncode != 0 or not out:
+                    break        # an illegal best move is C03's business
+                fen = out[-1]
+            eng.quit()
+        finally:
+            eng.kill()
+        return res
+    ngame_roots = 0
+    for res in vlib.pmap(mating_game, list(range(sz["games"])), workers=8):
+        for fen, depth, net, opts, lines in res:
+            roots.append({"fen": fen, "known_n": None, "row": None, "game": True})
+            jobs.append((len(roots) - 1, depth, net, dict(opts, game="one process")))
+            outs.append(lines)
+            ngame_roots += 1
     # ---- collect claims
     claims = []      # per root events, certificates to request
     requests = []
@@ -230,6 +278,7 @@ def run(tier, seed):
                                for v in rep.violations):
         raise vlib.ToolFailure("solver certificate rejected by TLC: " + rep.violations[0][1][:300])
     rep.cov.update(stats)
+    rep.cov["roots_from_games_played_in_one_process"] = ngame_roots
     rep.cov["roots"] = len(roots)
     rep.cov["tactical_roots_without_known_mate"] = len(roots) - ntact0
     rep.cov["mate_in_one_families"] = families
